@@ -94,6 +94,8 @@ def op_strategy():
         st.tuples(st.just("highlight_regex"), i, st.integers(0, len(REGEXES) - 1), style_opt()),
         st.tuples(st.just("highlight_words"), i, st.lists(st.sampled_from(["a", "ab", "x", "1", " ", "A", GC.WIDE[0]]), min_size=1, max_size=3), st.sampled_from(PAL), st.booleans()),
         st.tuples(st.just("copy_styles"), i, st.sampled_from(PAL), off, st.one_of(st.none(), off)),
+        # copy_styles from another value of the pool (applies only while the two have the same length, e.g. a kept copy whose original was restyled since)
+        st.tuples(st.just("copy_styles_from"), i, i),
     ]
     return st.one_of(*ops).map(list)
 
@@ -179,7 +181,8 @@ def resolve(ctx, t, cands, desc, sigop, tail=()):
 class Histories(Part):
     name = "histories"
     rule = ("pool of 1-3 Text values built by Text()/styled/assemble/from_markup (strings include the four stripped control characters, tabs, wide and "
-            "zero-width characters) + <=12 ops out of 26 kinds with raw integer offsets in [-5, 22]; after every op plain, len() and per-character "
+            "zero-width characters) + <=12 ops out of 27 kinds with raw integer offsets in [-5, 22] (copy_styles takes a fresh one-span donor, or another value "
+            "of the pool when it has the same length); after every op plain, len() and per-character "
             "effective styles are compared with the model; non-trivial = >=4 ops applied, a styled character survives, and an op removed or moved characters")
     budget = {"quick": (16, 1500), "thorough": (16, 20000)}
 
@@ -497,6 +500,12 @@ class Histories(Part):
                     ctx.violation("style-only", "C05/styleonly/copy_styles", "%s changed the characters" % desc)
                     return
                 new = (t, m.stylize(sty, a, b))
+            elif name == "copy_styles_from":
+                o, om = pool[op[2] % len(pool)]
+                if len(om) != len(m) or len(t.spans) + len(o.spans) > 400:
+                    continue  # documented precondition: same length (and repeated self-copies are not left to double the span list for ever)
+                sut(t.copy_styles, o)
+                new = (t, m.copy_styles(om))
             else:
                 raise AssertionError("unknown op %r" % (op,))
             if new is None:
@@ -527,4 +536,261 @@ class Histories(Part):
             ctx.nontrivial = True
 
 
-PARTS = [Histories()]
+def tab_history_strategy():
+    i = st.integers(0, 7)
+    tabbed = st.text(st.sampled_from(["a", "b", " ", "\t", "\t", "\n", GC.WIDE[0]]), min_size=1, max_size=10).filter(lambda x: "\t" in x)
+
+    @st.composite
+    def ctor(draw):
+        s = draw(tabbed)
+        spans = []
+        for _ in range(draw(st.integers(0, 3))):
+            a = draw(st.integers(0, len(s)))
+            spans.append([a, draw(st.integers(a, len(s))), draw(st.sampled_from(PAL))])
+        return ["text", s, draw(style_opt()), spans, draw(st.integers(1, 10))]
+
+    deriving = st.one_of(
+        st.tuples(st.just("copy"), i),
+        st.tuples(st.just("copy"), i),
+        st.tuples(st.just("add"), i, i),
+        st.tuples(st.just("add_str"), i, tabbed),
+        st.tuples(st.just("append_str"), i, tabbed, style_opt()),
+        st.tuples(st.just("append_text"), i, i, st.booleans(), st.just(False)),
+        st.tuples(st.just("share_spans"), i),
+        st.tuples(st.just("stylize"), i, st.sampled_from(PAL), st.integers(-5, 12), st.one_of(st.none(), st.integers(-5, 12))),
+        st.tuples(st.just("copy_styles_from"), i, i),
+        st.tuples(st.sampled_from(["pad_left", "pad_right"]), i, st.integers(0, 3), st.just(" ")),
+        st.tuples(st.just("right_crop"), i, st.integers(0, 3)),
+        st.tuples(st.just("set_length"), i, st.integers(0, 12)),
+    ).map(list)
+    expand = st.tuples(st.just("expand_tabs"), i, st.none()).map(list)
+    return st.builds(lambda pool, first, e1, more, e2, lazy: {"pool": pool, "ops": first + [e1] + more + [e2], "lazy": lazy},
+                     st.lists(ctor(), min_size=1, max_size=2), st.lists(deriving, min_size=1, max_size=4), expand, st.lists(deriving, max_size=2), expand,
+                     st.sampled_from([False, False, True]))
+
+
+class TabHistories(Histories):
+    name = "tab-histories"
+    rule = ("histories of the same shape as in `histories` (same check, same model), aimed at the settings a value carries: pool of 1-2 Text(string with at "
+            "least one tab, tab_size 1..10, <=3 spans), then 1-4 ops that derive values or edit in place (copy kept as a further value, +, + str, append, "
+            "append_text, spans set from one list, stylize, copy_styles from a value of the same length, pad_left/right, right_crop, set_length), then "
+            "expand_tabs() WITHOUT a size on one of the values, <=2 more such ops and another expand_tabs(); the plain string must be what "
+            "str.expandtabs(the value's own tab size) gives, len() and the styles of the surviving characters as in the model; non-trivial as in `histories`")
+    budget = {"quick": (16, 150), "thorough": (16, 3000)}
+
+    def strategy(self, tier):
+        return tab_history_strategy()
+
+
+NAMED = {"red": PAL[0], "blue": PAL[1], "green": PAL[2], "bold": PAL[3]}
+HL_REGEXES = [r"(?P<red>x+)|(?P<bold>y+)", r"(?P<green>\d+)", r"(?P<blue>[a-c]+)", r"(?P<bold>\w+)", r"(?P<red>\s+)", r"(?P<green>[a-z])(?P<blue>[a-z0-9])?"]
+
+
+def spec_str(spec):
+    """A style spec written as a style definition string ('not bold red on yellow link ...')."""
+    words = [("" if v else "not ") + k for k, v in sorted(spec["attrs"].items())]
+    if spec["color"] is not None:
+        words.append(spec["color"])
+    if spec["bgcolor"] is not None:
+        words.append("on " + spec["bgcolor"])
+    if spec["link"] is not None:
+        words.append("link " + spec["link"])
+    return " ".join(words)
+
+
+def restyle_strategy():
+    @st.composite
+    def spec(draw):
+        s = draw(text_str(12).filter(lambda x: len(strip(x)) >= 2))
+        n = len(strip(s))
+        regions = []
+        for _ in range(draw(st.integers(2, 5))):
+            if draw(st.integers(0, 5)) == 0:
+                a = draw(st.integers(-n - 2, n + 2))
+                b = draw(st.one_of(st.none(), st.integers(-n - 2, n + 3)))
+            else:
+                a = draw(st.integers(0, n - 1))
+                b = draw(st.integers(a + 1, n))
+            regions.append([a, b, draw(st.sampled_from(PAL))])
+        r = st.integers(0, len(regions) - 1)
+        texts = draw(st.lists(st.tuples(style_opt(), st.lists(r, max_size=4), st.sampled_from(["ctor", "stylize"])).map(list), min_size=1, max_size=3))
+        i = st.integers(0, 7)
+        ops = st.one_of(
+            st.tuples(st.just("stylize"), i, r, st.booleans()),
+            st.tuples(st.just("stylize"), i, r, st.booleans()),
+            st.tuples(st.just("copy_styles"), i, i),
+            st.tuples(st.just("copy_styles"), i, i),
+            st.tuples(st.just("copy_styles"), i, i),
+            st.tuples(st.just("copy"), i),
+            st.tuples(st.just("rebuild"), i),
+            st.tuples(st.just("set_spans"), i, i),
+            st.tuples(st.just("highlight_regex"), i, st.integers(0, len(REGEXES) - 1), style_opt()),
+            st.tuples(st.just("highlight_words"), i, st.lists(st.sampled_from(["a", "ab", "x", "1", " ", "A", GC.WIDE[0]]), min_size=1, max_size=3), st.sampled_from(PAL), st.booleans()),
+            st.tuples(st.just("highlighter"), i, st.lists(st.integers(0, len(HL_REGEXES) - 1), min_size=1, max_size=3), st.booleans()),
+        ).map(list)
+        return {"s": s, "regions": regions, "texts": texts, "ops": draw(st.lists(ops, min_size=1, max_size=10))}
+
+    return spec()
+
+
+def resolve_region(n, a, b):
+    """What stylize(style, a, b) covers on a text of n characters (negative offsets count from the end): (start, end) inside [0, n], or None."""
+    if a < 0:
+        a = n + a
+    if b is None:
+        b = n
+    if b < 0:
+        b = n + b
+    if a >= n or b <= a:
+        return None
+    a, b = max(0, a), min(n, b)
+    return (a, b) if b > a else None
+
+
+class Restyling(Part):
+    name = "restyling"
+    rule = ("1-3 Text values over ONE string (so copy_styles' same-length precondition always holds), each with a base style and spans taken from a small "
+            "set of 2-5 regions (start, end, style) that all values and all later ops share - so spans equal to ones a value already owns, or to ones another "
+            "value owns, recur all the time; then <=10 styling-only ops: stylize(region, style given as a Style or as its definition string), "
+            "copy_styles(from another value / from a value with equal spans / from itself), copy (kept as a further value), rebuild (blank_copy + plain= + "
+            "copy_styles), spans = other.spans, highlight_regex, highlight_words, a RegexHighlighter (in place or through __call__) - the same one possibly "
+            "several times. After every op the plain string, len() and the per-character effective styles of EVERY value are compared with the model (each "
+            "character carries the list of styles applied so far, later ones on top; copy_styles puts the other value's styles on top in their order). "
+            "non-trivial = >=3 ops applied, a copy_styles between two values (or a rebuild) took place, and at the end some character carries >=3 styles")
+    budget = {"quick": (16, 500), "thorough": (16, 8000)}
+
+    def strategy(self, tier):
+        return restyle_strategy()
+
+    def check(self, spec, ctx):
+        from rich.text import Text, Span
+        from rich.highlighter import RegexHighlighter
+
+        s = spec["s"]
+        regions = spec["regions"]
+        n = len(strip(s))
+        pool = []
+        for base, idxs, how in spec["texts"]:
+            m = TM.make(s, base)
+            if how == "ctor":
+                spans = []
+                for k in idxs:
+                    a, b, sty = regions[k]
+                    rr = resolve_region(n, a, b)
+                    if rr is not None:
+                        spans.append(Span(rr[0], rr[1], GS.build_style(sty)))
+                        m = m.stylize(sty, rr[0], rr[1])
+                t = sut(Text, s, style=GS.build_style(base) if base else "", spans=spans)
+            else:
+                t = sut(Text, s, style=GS.build_style(base) if base else "")
+                for k in idxs:
+                    a, b, sty = regions[k]
+                    sut(t.stylize, GS.build_style(sty), a, b)
+                    m = m.stylize(sty, a, b)
+            if not compare(ctx, t, m, "construct %r over %r" % ([base, idxs, how], s), "restyle-ctor"):
+                return
+            pool.append((t, m))
+        applied = 0
+        copied = False
+        for op in spec["ops"]:
+            name = op[0]
+            i = op[1] % len(pool)
+            t, m = pool[i]
+            before = t.plain
+            desc = "%r on value #%d of %r (regions %r)" % (op, i, [(mm.plain, tt.spans) for tt, mm in pool], regions)
+            new = None
+            if name == "stylize":
+                a, b, sty = regions[op[2]]
+                sut(t.stylize, spec_str(sty) if op[3] else GS.build_style(sty), a, b)
+                new = (t, m.stylize(sty, a, b))
+            elif name == "copy_styles":
+                j = op[2] % len(pool)
+                o, om = pool[j]
+                if len(t.spans) + len(o.spans) > 400:
+                    continue  # repeated self-copies are not left to double the span list for ever
+                sut(t.copy_styles, o)
+                new = (t, m.copy_styles(om))
+                if j != i:
+                    copied = True
+                else:
+                    ctx.cls("copy_styles-from-itself")
+            elif name == "copy":
+                r = sut(t.copy)
+                if len(pool) < 5:
+                    pool.append((r, m.copy()))
+                    i = len(pool) - 1
+                    new = pool[i]
+                else:
+                    new = (r, m.copy())
+            elif name == "rebuild":
+                # the value is built again from its parts: the settings, the characters, then the styles
+                r = sut(t.blank_copy)
+                r.plain = t.plain
+                sut(r.copy_styles, t)
+                copied = True
+                if len(pool) < 5:
+                    pool.append((r, m.copy()))
+                    i = len(pool) - 1
+                    new = pool[i]
+                else:
+                    new = (r, m.copy())
+            elif name == "set_spans":
+                j = op[2] % len(pool)
+                o, om = pool[j]
+                t.spans = o.spans
+                new = (t, m.with_chars([(c, oo) for (c, _), (_, oo) in zip(m.chars, om.chars)]))
+            elif name == "highlight_regex":
+                _, _, ri, sty = op
+                rx = REGEXES[ri]
+                sut(t.highlight_regex, rx, GS.build_style(sty))
+                spans = []
+                for mt in re.finditer(rx, m.plain):
+                    if sty is not None:
+                        spans.append((mt.start(), mt.end(), sty))
+                    for g in mt.groupdict():
+                        a, b = mt.span(g)
+                        if a != -1:
+                            spans.append((a, b, NAMED[g]))
+                new = (t, m.add_spans(spans))
+            elif name == "highlight_words":
+                _, _, words, sty, case = op
+                sut(t.highlight_words, words, GS.build_style(sty), case_sensitive=case)
+                rx = "|".join(re.escape(w) for w in words)
+                new = (t, m.add_spans([(mt.start(), mt.end(), sty) for mt in re.finditer(rx, m.plain, flags=0 if case else re.IGNORECASE)]))
+            elif name == "highlighter":
+                _, _, ris, inplace = op
+                rxs = [HL_REGEXES[k] for k in ris]
+                hl = type("H", (RegexHighlighter,), {"base_style": "", "highlights": rxs})()
+                spans = []
+                for rx in rxs:
+                    for mt in re.finditer(rx, m.plain):
+                        for g in mt.groupdict():
+                            a, b = mt.span(g)
+                            if a != -1:
+                                spans.append((a, b, NAMED[g]))
+                if inplace:
+                    sut(hl.highlight, t)
+                    new = (t, m.add_spans(spans))
+                else:
+                    r = sut(hl, t)
+                    if not compare(ctx, t, m, desc + " (the argument afterwards)", "restyle-highlighter-arg"):
+                        return
+                    new = (r, m.add_spans(spans))
+            else:
+                raise AssertionError("unknown op %r" % (op,))
+            applied += 1
+            ctx.cls("restyle-" + name)
+            if new[0].plain != before:
+                ctx.violation("style-only", "C05/styleonly/restyle-" + name, "%s changed the characters: %r" % (desc, new[0].plain))
+                return
+            if not compare(ctx, new[0], new[1], desc, "restyle-" + name):
+                return
+            pool[i] = new
+            for j, (ot, om) in enumerate(pool):
+                if j != i and not compare(ctx, ot, om, desc + " (another value, #%d, afterwards)" % j, "restyle-alias-" + name):
+                    return
+        if applied >= 3 and copied and any(o is not None and len(o) >= 3 for _, mm in pool for _, o in mm.chars):
+            ctx.nontrivial = True
+
+
+PARTS = [Histories(), Restyling(), TabHistories()]
